@@ -1,1 +1,429 @@
 //! reference model: poseidon (see DESIGN.md §4 E7)
+//!
+//! A deliberately plain Poseidon over the BLS12-381 scalar field, written from the Poseidon
+//! paper (Grassi, Khovratovich, Rechberger, Roy, Schofnegger, USENIX Security 2021) and its
+//! parameter-generation script `generate_parameters_grain.sage`:
+//!
+//! * parameters as the repository states them (`circuits/src/hash/poseidon/constants`): GF(p) with
+//!   p = 0x73eda753…00000001 (n = 255 bits), width t = 3, rate 2, capacity 1, R_F = 8 full
+//!   rounds (4 + 4), R_P = 60 partial rounds, S-box x^5; script arguments `1 0 255 3 8 60 p`;
+//! * round constants and the MDS matrix are *regenerated* here: Grain LFSR in self-shrinking mode
+//!   seeded with (field=1, sbox=0, n, t, R_F, R_P, 30 ones), first 160 bits discarded, (R_F+R_P)·t
+//!   constants by rejection sampling of n-bit big-endian integers, then the first Cauchy matrix
+//!   M[i][j] = 1/(x_i + y_j) from 2t further (reduced, not rejected) samples;
+//! * the permutation has no round skipping and no shifted rounds: every round is
+//!   AddRoundConstants → S-box (all cells in full rounds, one cell in partial rounds) → M·state.
+//!
+//! The only field operations used are `+`, `*`, `invert` of `midnight_curves::Fq` (that type is the
+//! subject of C10); big-integer work (Grain output → integer → reduction) is done with `num-bigint`.
+//!
+//! Two conventions are *not* fixed by the paper and are taken from the repository's documentation
+//! (`hash/poseidon/mod.rs`, `instructions/sponge.rs`); both are parameters here:
+//! * which cell gets the S-box in a partial round: the paper's figure draws it on the last cell,
+//!   the reference script `poseidonperm_x5_255_3.sage` uses cell 0; the repository documents the
+//!   last cell (`(x y z^5)·MDS`), see `Params::partial_sbox_index`;
+//! * the sponge framing (where the capacity cell lives, what it is initialised with, how the
+//!   streaming mode pads): see `hash_fixed` and `Sponge`.
+
+use ff::{Field, PrimeField};
+use midnight_curves::Fq as F;
+use num_bigint::BigUint;
+use num_traits::{One, Zero};
+
+pub const T: usize = 3;
+pub const RATE: usize = 2;
+pub const R_F: usize = 8;
+pub const R_P: usize = 60;
+pub const FIELD_BITS: usize = 255;
+/// modulus quoted on the script command line in `constants/blstrs.rs`
+pub const MODULUS_HEX: &str = "73eda753299d7d483339d80809a1d80553bda402fffe5bfeffffffff00000001";
+
+pub fn modulus() -> BigUint {
+    BigUint::parse_bytes(MODULUS_HEX.as_bytes(), 16).unwrap()
+}
+
+/// integer (any size) → field element, reduced modulo p
+pub fn f_from_big(b: &BigUint) -> F {
+    let r = b % modulus();
+    let mut bytes = r.to_bytes_le();
+    bytes.resize(32, 0);
+    let repr: [u8; 32] = bytes.try_into().unwrap();
+    Option::<F>::from(F::from_repr(repr)).expect("reduced value is canonical")
+}
+
+pub fn big_from_f(f: &F) -> BigUint {
+    BigUint::from_bytes_le(f.to_repr().as_ref())
+}
+
+pub fn f_from_hex(h: &str) -> F {
+    f_from_big(&BigUint::parse_bytes(h.trim_start_matches("0x").as_bytes(), 16).unwrap())
+}
+
+pub fn hex_of(f: &F) -> String {
+    format!("0x{:064x}", big_from_f(f))
+}
+
+// ---------------------------------------------------------------------------------------------
+// Grain LFSR (Poseidon paper, appendix "Generating the round constants / matrices")
+// ---------------------------------------------------------------------------------------------
+
+pub struct Grain {
+    state: std::collections::VecDeque<bool>,
+}
+
+fn push_bits(v: &mut Vec<bool>, value: u64, width: usize) {
+    for i in (0..width).rev() {
+        v.push((value >> i) & 1 == 1);
+    }
+}
+
+impl Grain {
+    /// `field`: 1 = GF(p); `sbox`: 0 = x^alpha; `n`: field size in bits; `t`: width.
+    pub fn new(field: u64, sbox: u64, n: u64, t: u64, r_f: u64, r_p: u64) -> Grain {
+        let mut bits = Vec::with_capacity(80);
+        push_bits(&mut bits, field, 2);
+        push_bits(&mut bits, sbox, 4);
+        push_bits(&mut bits, n, 12);
+        push_bits(&mut bits, t, 12);
+        push_bits(&mut bits, r_f, 10);
+        push_bits(&mut bits, r_p, 10);
+        bits.extend(std::iter::repeat(true).take(30));
+        assert_eq!(bits.len(), 80);
+        let mut g = Grain {
+            state: bits.into_iter().collect(),
+        };
+        for _ in 0..160 {
+            g.clock();
+        }
+        g
+    }
+
+    /// one LFSR step: b_{i+80} = b_{i+62} ⊕ b_{i+51} ⊕ b_{i+38} ⊕ b_{i+23} ⊕ b_{i+13} ⊕ b_i
+    fn clock(&mut self) -> bool {
+        let s = &self.state;
+        let new = s[62] ^ s[51] ^ s[38] ^ s[23] ^ s[13] ^ s[0];
+        self.state.pop_front();
+        self.state.push_back(new);
+        new
+    }
+
+    /// self-shrinking output: bits are taken in pairs; a pair (1, b) outputs b, a pair (0, _) nothing
+    pub fn next_bit(&mut self) -> bool {
+        loop {
+            let first = self.clock();
+            let second = self.clock();
+            if first {
+                return second;
+            }
+        }
+    }
+
+    /// next `n` output bits as a big-endian integer
+    pub fn next_int(&mut self, n: usize) -> BigUint {
+        let mut v = BigUint::zero();
+        for _ in 0..n {
+            v <<= 1;
+            if self.next_bit() {
+                v |= BigUint::one();
+            }
+        }
+        v
+    }
+}
+
+// ---------------------------------------------------------------------------------------------
+// Parameters
+// ---------------------------------------------------------------------------------------------
+
+#[derive(Clone, Debug)]
+pub struct Params {
+    pub r_f: usize,
+    pub r_p: usize,
+    /// `round_constants[r][i]` is added to cell i at the start of round r
+    pub round_constants: Vec<[F; T]>,
+    /// `state' = mds · state` (column vector)
+    pub mds: [[F; T]; T],
+    /// cell that goes through the S-box in partial rounds
+    pub partial_sbox_index: usize,
+    /// how many Cauchy candidates were drawn before this one (the script re-draws when its three
+    /// subspace-trail checks fail; those checks are not re-implemented here)
+    pub mds_candidate: usize,
+    pub source: &'static str,
+}
+
+/// Regenerates round constants and the `candidate`-th Cauchy matrix exactly as
+/// `generate_parameters_grain.sage 1 0 255 3 <r_f> <r_p> <p>` does.
+pub fn generate(r_f: usize, r_p: usize, candidate: usize, partial_sbox_index: usize) -> Params {
+    let p = modulus();
+    let mut grain = Grain::new(1, 0, FIELD_BITS as u64, T as u64, r_f as u64, r_p as u64);
+    let mut flat = Vec::with_capacity((r_f + r_p) * T);
+    while flat.len() < (r_f + r_p) * T {
+        let v = grain.next_int(FIELD_BITS);
+        if v < p {
+            flat.push(f_from_big(&v));
+        }
+    }
+    let round_constants: Vec<[F; T]> = flat.chunks(T).map(|c| [c[0], c[1], c[2]]).collect();
+    let mut drawn = 0usize;
+    let mds = loop {
+        // 2t distinct samples (reduced modulo p, no rejection)
+        let vals: Vec<F> = loop {
+            let v: Vec<F> = (0..2 * T).map(|_| f_from_big(&grain.next_int(FIELD_BITS))).collect();
+            let mut distinct = true;
+            for i in 0..v.len() {
+                for j in 0..i {
+                    if v[i] == v[j] {
+                        distinct = false;
+                    }
+                }
+            }
+            if distinct {
+                break v;
+            }
+        };
+        let (xs, ys) = vals.split_at(T);
+        let mut m = [[F::ZERO; T]; T];
+        let mut ok = true;
+        for i in 0..T {
+            for j in 0..T {
+                let s = xs[i] + ys[j];
+                match Option::<F>::from(s.invert()) {
+                    Some(inv) => m[i][j] = inv,
+                    None => ok = false,
+                }
+            }
+        }
+        if !ok {
+            continue;
+        }
+        if drawn == candidate {
+            break m;
+        }
+        drawn += 1;
+    };
+    Params {
+        r_f,
+        r_p,
+        round_constants,
+        mds,
+        partial_sbox_index,
+        mds_candidate: candidate,
+        source: "regenerated (Grain LFSR + Cauchy)",
+    }
+}
+
+/// Parameters the repository states: R_F = 8, R_P = 60, first Cauchy candidate, S-box on the
+/// last cell in partial rounds.
+pub fn params_repo_stated() -> Params {
+    generate(R_F, R_P, 0, T - 1)
+}
+
+/// Fallback: a plain permutation over given constant tables.
+pub fn params_from_tables(round_constants: Vec<[F; T]>, mds: [[F; T]; T], partial_sbox_index: usize) -> Params {
+    assert_eq!(round_constants.len(), R_F + R_P);
+    Params {
+        r_f: R_F,
+        r_p: R_P,
+        round_constants,
+        mds,
+        partial_sbox_index,
+        mds_candidate: 0,
+        source: "constant tables",
+    }
+}
+
+// ---------------------------------------------------------------------------------------------
+// Permutation
+// ---------------------------------------------------------------------------------------------
+
+fn pow5(x: F) -> F {
+    let x2 = x * x;
+    let x4 = x2 * x2;
+    x4 * x
+}
+
+fn mat_vec(m: &[[F; T]; T], v: &[F; T]) -> [F; T] {
+    let mut out = [F::ZERO; T];
+    for i in 0..T {
+        let mut acc = F::ZERO;
+        for j in 0..T {
+            acc += m[i][j] * v[j];
+        }
+        out[i] = acc;
+    }
+    out
+}
+
+/// POSEIDON^π: R_F/2 full rounds, R_P partial rounds, R_F/2 full rounds.
+pub fn permute(p: &Params, state: &mut [F; T]) {
+    let half = p.r_f / 2;
+    for r in 0..p.r_f + p.r_p {
+        for i in 0..T {
+            state[i] += p.round_constants[r][i];
+        }
+        let full = r < half || r >= half + p.r_p;
+        if full {
+            for i in 0..T {
+                state[i] = pow5(state[i]);
+            }
+        } else {
+            let i = p.partial_sbox_index;
+            state[i] = pow5(state[i]);
+        }
+        *state = mat_vec(&p.mds, state);
+    }
+}
+
+// ---------------------------------------------------------------------------------------------
+// Sponge framings (repository conventions over the textbook permutation)
+// ---------------------------------------------------------------------------------------------
+
+/// value of the capacity cell for the streaming (transcript) mode: 2^64
+pub fn streaming_tag() -> F {
+    f_from_big(&(BigUint::one() << 64))
+}
+
+/// Fixed-length hash of `inputs` (documented in `instructions/sponge.rs` / `hash/poseidon`):
+/// rate cells 0..RATE start at 0, the capacity cell (index RATE) starts at the number of inputs;
+/// the message is absorbed RATE elements at a time by addition into the rate cells (a short last
+/// block touches only its own cells, i.e. zero padding), each block followed by one permutation;
+/// the digest is rate cell 0. (Consequence: the empty message absorbs no block and hashes to 0.)
+pub fn hash_fixed(p: &Params, inputs: &[F]) -> F {
+    let mut st = [F::ZERO; T];
+    st[RATE] = F::from(inputs.len() as u64);
+    for block in inputs.chunks(RATE) {
+        for (cell, x) in st.iter_mut().zip(block) {
+            *cell += *x;
+        }
+        permute(p, &mut st);
+    }
+    st[0]
+}
+
+/// Streaming sponge used as transcript hash (`TranscriptHash for PoseidonState`): the capacity cell
+/// starts at 2^64. A squeeze that follows absorbs first appends the *number of pending elements*
+/// as one more element, absorbs everything pending block-wise (as in `hash_fixed`) and outputs rate
+/// cell 0; further squeezes hand out the remaining rate cells in order; once the rate cells are
+/// used up, the next squeeze runs the absorb step again (on the pending elements, possibly none).
+#[derive(Clone)]
+pub struct Sponge {
+    p: Params,
+    st: [F; T],
+    pending: Vec<F>,
+    /// rate cells still available for output (index of the next one), None = must run absorb step
+    next_out: Option<usize>,
+}
+
+impl Sponge {
+    pub fn new(p: &Params) -> Sponge {
+        let mut st = [F::ZERO; T];
+        st[RATE] = streaming_tag();
+        Sponge {
+            p: p.clone(),
+            st,
+            pending: vec![],
+            next_out: None,
+        }
+    }
+    pub fn absorb(&mut self, xs: &[F]) {
+        self.pending.extend_from_slice(xs);
+        self.next_out = None;
+    }
+    pub fn squeeze(&mut self) -> F {
+        if let Some(i) = self.next_out {
+            let out = self.st[i];
+            self.next_out = if i + 1 < RATE { Some(i + 1) } else { None };
+            return out;
+        }
+        let count = F::from(self.pending.len() as u64);
+        self.pending.push(count);
+        let pending = std::mem::take(&mut self.pending);
+        for block in pending.chunks(RATE) {
+            for (cell, x) in self.st.iter_mut().zip(block) {
+                *cell += *x;
+            }
+            permute(&self.p, &mut self.st);
+        }
+        self.next_out = if RATE > 1 { Some(1) } else { None };
+        self.st[0]
+    }
+}
+
+// ---------------------------------------------------------------------------------------------
+// Self test (published vector of the reference implementation)
+// ---------------------------------------------------------------------------------------------
+
+/// Checks the generator and the permutation against the published instance
+/// `poseidonperm_x5_255_3` of the reference implementation (same field, t = 3, R_F = 8,
+/// R_P = 57, S-box on cell 0): first round constants, MDS entries and the test vector
+/// permutation(0, 1, 2). Returns a description of the first mismatch.
+pub fn selftest() -> Result<(), String> {
+    // field glue
+    if f_from_big(&(modulus() - BigUint::one())) + F::ONE != F::ZERO {
+        return Err("modulus constant is not the modulus of midnight_curves::Fq".into());
+    }
+    if f_from_big(&BigUint::from(7u8)) != F::from(7u64) || big_from_f(&F::from(258u64)) != BigUint::from(258u32) {
+        return Err("to_repr/from_repr are not little-endian".into());
+    }
+    let p = generate(8, 57, 0, 0);
+    let rc_expected = [
+        "0x6c4ffa723eaf1a7bf74905cc7dae4ca9ff4a2c3bc81d42e09540d1f250910880",
+        "0x54dd837eccf180c92c2f53a3476e45a156ab69a403b6b9fdfd8dd970fddcdd9a",
+        "0x64f56d735286c35f0e7d0a29680d49d54fb924adccf8962eeee225bf9423a85e",
+    ];
+    for (i, h) in rc_expected.iter().enumerate() {
+        if p.round_constants[0][i] != f_from_hex(h) {
+            return Err(format!("round constant {i} of poseidonperm_x5_255_3: got {}, published {h}", hex_of(&p.round_constants[0][i])));
+        }
+    }
+    let mds_expected = [
+        [
+            "0x3d955d6c02fe4d7cb500e12f2b55eff668a7b4386bd27413766713c93f2acfcd",
+            "0x3798866f4e6058035dcf8addb2cf1771fac234bcc8fc05d6676e77e797f224bf",
+            "0x2c51456a7bf2467eac813649f3f25ea896eac27c5da020dae54a6e640278fda2",
+        ],
+        [
+            "0x20088ca07bbcd7490a0218ebc0ecb31d0ea34840e2dc2d33a1a5adfecff83b43",
+            "0x1d04ba0915e7807c968ea4b1cb2d610c7f9a16b4033f02ebacbb948c86a988c3",
+            "0x5387ccd5729d7acbd09d96714d1d18bbd0eeaefb2ddee3d2ef573c9c7f953307",
+        ],
+        [
+            "0x1e208f585a72558534281562cad89659b428ec61433293a8d7f0f0e38a6726ac",
+            "0x0455ebf862f0b60f69698e97d36e8aafd4d107cae2b61be1858b23a3363642e0",
+            "0x569e2c206119e89455852059f707370e2c1fc9721f6c50991cedbbf782daef54",
+        ],
+    ];
+    for i in 0..T {
+        for j in 0..T {
+            if p.mds[i][j] != f_from_hex(mds_expected[i][j]) {
+                return Err(format!("MDS[{i}][{j}] of poseidonperm_x5_255_3: got {}, published {}", hex_of(&p.mds[i][j]), mds_expected[i][j]));
+            }
+        }
+    }
+    let mut st = [F::from(0u64), F::from(1u64), F::from(2u64)];
+    permute(&p, &mut st);
+    let out_expected = [
+        "0x28ce19420fc246a05553ad1e8c98f5c9d67166be2c18e9e4cb4b4e317dd2a78a",
+        "0x51f3e312c95343a896cfd8945ea82ba956c1118ce9b9859b6ea56637b4b1ddc4",
+        "0x3b2b69139b235626a0bfb56c9527ae66a7bf486ad8c11c14d1da0c69bbe0f79a",
+    ];
+    for i in 0..T {
+        if st[i] != f_from_hex(out_expected[i]) {
+            return Err(format!("permutation(0,1,2)[{i}] of poseidonperm_x5_255_3: got {}, published {}", hex_of(&st[i]), out_expected[i]));
+        }
+    }
+    // the sponge framings are exercised for internal consistency only (they are repository conventions)
+    let q = params_repo_stated();
+    if hash_fixed(&q, &[]) != F::ZERO {
+        return Err("hash_fixed(empty) must be the untouched rate cell".into());
+    }
+    let mut s = Sponge::new(&q);
+    s.absorb(&[F::ONE]);
+    let a = s.squeeze();
+    let mut st2 = [F::ONE, F::ONE, streaming_tag()];
+    permute(&q, &mut st2);
+    if a != st2[0] || s.squeeze() != st2[1] {
+        return Err("streaming sponge inconsistent with the permutation".into());
+    }
+    Ok(())
+}
